@@ -54,8 +54,9 @@ def all_nodes(rel):
 def _uses_function(x, name):
     """Does a library expression / predicate / container mention the named engine function? (independent of
     the library's own is_supported_by)."""
-    if getattr(x, "name", None) == name and hasattr(x, "args") and getattr(x, "supporting_engine_types", None) is not None:
-        return True      # (the unrestricted twin of the same name is fine everywhere)
+    if hasattr(x, "args") and getattr(x, "supporting_engine_types", None) is not None:
+        return True      # any engine-restricted function or predicate function (the harness restricts to iteration
+                         # engines only; unrestricted twins of the same name are fine everywhere)
     for attr in ("args", "operands", "items"):
         for y in getattr(x, attr, ()) or ():
             if _uses_function(y, name):
